@@ -171,7 +171,7 @@ func C06(ctx *Ctx) {
 		// the reference r: the single loop-element atom the index depends on
 		var rAtom, lAtom *absint.Atom
 		for _, d := range absint.LinDeps(p.idx.Lin) {
-			if strings.HasPrefix(d.Key, "top:load[") || strings.Contains(d.Key, "next#") || strings.HasPrefix(d.Key, "load[") {
+			if strings.HasPrefix(d.Key, "mem") && strings.Contains(d.Key, "next#") {
 				rAtom = d
 			}
 		}
